@@ -11,6 +11,13 @@ REPO = os.environ.get("PYVC_REPO", "/repo")
 NATIVE_PY = "/venv/bin/python"
 
 PLANS = {
+    "C15": {
+        "level": "proof",
+        "sidecars": ["quatfit"],
+        "extras": [{"name": "c15_numeric", "module": "bounded.c15_numeric", "func": "run", "python": "venv"}],
+        "explanation": "algebraic kernel of quatfit proved (unit quaternion -> proper rotation, Rodrigues rotation keeps "
+                       "distances to the axis, placement is a rigid motion); A-JACOBI and float tolerances bounded",
+    },
     "C16": {
         "level": "proof",
         "sidecars": ["ligand"],
